@@ -50,7 +50,7 @@ CHECKS = {
                      'order signature (SHA-1 over the executed sequence of event kinds and entity indices)'),
     'C04': dict(engine='pipeline', design_ref='5 (C04)', note=PIPE_NOTE,
                 technique='deterministic simulation (virtual-time asyncio loop) + seeded schedule/fault search + reference-model oracle',
-                text='Seeded attach/detach histories and Interest arrivals against a dict model of longest-prefix dispatch; reply callbacks fired on a lattice around the Interest deadline (also after a step of the system clock, and after the face went down). In the legacy front-end handlers are also attached through register()/unregister() against a fake forwarder that acknowledges, refuses, nacks or ignores each command; prefixes are given as URI, component lists, wire bytes, bytearray, memoryview and read-only views over buffers the caller owns (overwritten once the call has returned), with long typed components. The direct face keeps the buffers it was handed by send() and re-checks them later: a transport may queue what it is given without copying.',
+                text='Seeded attach/detach histories and Interest arrivals against a dict model of longest-prefix dispatch; reply callbacks fired on a lattice around the Interest deadline (also after a step of the system clock, and after the face went down). In the legacy front-end handlers are also attached through register()/unregister() against a fake forwarder that acknowledges, refuses, nacks or ignores each command; prefixes are given as URI, component lists, wire bytes, bytearray, memoryview and read-only views over buffers the caller owns (overwritten once the call has returned), with long typed components. The simulated faces (direct face and stream peer) keep the buffers they are handed and re-check them at later sends and at the end of the run: a transport may queue what it is given without copying.',
                 level='exploration', real=PIPE_REAL, stub=STUB_COMMON,
                 rule='seed -> attach/detach history over a small prefix tree in random name representations, incoming '
                      'Interests at/below/above/beside prefixes, replies aimed at the lattice around the Interest '
